@@ -16,5 +16,7 @@ func VerifC09Idempotent() {
 		return
 	}
 	symKnown("C09-single-line-element-with-child-lacking-trailing-space", verifFileHasInlineNonTrailer(x))
+	symKnown("C09-line-break-from-character-reference-in-constant-attribute", verifFileHasAttrLineBreak(x))
+	symKnown("C09-text-ending-in-lone-carriage-return", verifFileHasTextWithCR(x))
 	symAssertEq(f2, f1, "formatting the formatter's output changes nothing")
 }
